@@ -253,6 +253,34 @@ func init() {
 	add("C19", "C7")
 	add("C13", "H4")
 	add("C14", "H4")
+	// addScoped: add a rule whose obligations are kept for the property when pred(key) holds; other rules keep the property's filter
+	addScoped := func(id, ruleID string, pred func(key string) bool, expl string) {
+		p := properties[id]
+		p.Rules = append(p.Rules, ruleID)
+		old := p.Filter
+		own := keepIf(func(_, key string) bool { return pred(key) })
+		p.Filter = func(rule string, obls []Obl) []Obl {
+			if rule == ruleID {
+				return own(rule, obls)
+			}
+			if old != nil {
+				return old(rule, obls)
+			}
+			return obls
+		}
+		p.Explanation += " " + expl
+	}
+	in := func(subs ...string) func(string) bool { return func(k string) bool { return hasAny(k, subs...) } }
+	// rules added after the second round of seeded changes
+	addScoped("C12", "F6", in("reader/"), "(F6) a deferred panic report never runs after the deferred close of the channel it reports on.")
+	addScoped("C05", "F6", in("writer/"), "(F6) a deferred panic report never runs after the deferred close of the channel it reports on.")
+	d9 := "(D9) a clause appended to a clause list inside a loop is computed in that iteration, never the value a variable kept from an earlier element."
+	addScoped("C17", "D9", in("reader/prof/", "reader/promql/", "StreamSelectPlanner", "SimpleLabelFilterPlanner"), d9)
+	addScoped("C07", "D9", in("reader/logql/"), d9)
+	addScoped("C08", "D9", in("reader/logql/"), d9)
+	addScoped("C11", "D9", in("reader/traceql/", "reader/tempo", "reader/service"), d9)
+	addScoped("C03", "O3", in("writer/"), "(O3) a handler never writes into the backing array of a slice a decoder lent it (decoders reuse their label and value slices for the following rows).")
+	addScoped("C14", "H5", in(""), "(H5) no package-level variable holds SQL builder objects, so a planner that rewrites columns in place cannot change later translations.")
 	properties["C01"].Filter = keepIf(func(rule, key string) bool { return rule != "O1" || strings.HasPrefix(key, "writer/") })
 	properties["C02"].Filter = keepIf(func(rule, key string) bool { return rule != "O1" || strings.HasPrefix(key, "writer/") })
 	properties["C01"].Explanation += " (B2) the buffer swap is one critical section; (O1) a promise list / buffer that was handed over is replaced by a fresh value, never re-sliced."
